@@ -42,7 +42,7 @@ PROPS['C15'] = dict(
 
 PROPS['C06'] = dict(
     level='proof',
-    claim='every obligation generated from the contracts of states._task_state_progress, states._task_state_value, Task._update and TaskManager._update_tasks is discharged for all inputs and all batch lengths (loop invariants, no bound): forward-only single steps, sticky final states, no batch raises, unnamed tasks untouched, callbacks strictly increasing per task',
+    claim='every obligation generated from the contracts of states._task_state_progress, states._task_state_value, Task._update, TaskManager._update_tasks, TaskManager._state_sub_cb (every task notification of an update message reaches _update_tasks once, in the order delivered) and TaskManager._task_cb is discharged for all inputs and all batch lengths (loop invariants, no bound): forward-only single steps, sticky final states, no batch raises, unnamed tasks untouched, callbacks strictly increasing per task',
     assumptions=['A2', 'A4', 'A5', 'A7', 'A9', 'A10', 'A11'],
     trusted_base=['ru.dict_merge (radical.utils): assumed not to raise and to touch only _task_info'],
     explanation='state progression function (functional spec), Task._update '
@@ -222,7 +222,7 @@ PROPS['C07'] = dict(
     clauses={'execution start announced once': 'P', 'handed on / released at most once per obtained token': 'P',
              'never both canceled and collected (token is exclusive)': 'P at operation level + atomicity argument (A7)',
              'never left behind (every token is consumed)': 'P per operation; watcher liveness N',
-             'launch error: released once, handed on as FAILED': 'P under the assumed _handle_task contract'})
+             'launch error: released once, handed on as FAILED': 'P under the assumed _handle_task contract (raises only before the process exists) + B (executor-ops: an error after the process exists)'})
 
 PROPS['C08'] = dict(
     level='other',
